@@ -3,6 +3,7 @@ package main
 import (
 	"fmt"
 	"go/token"
+	"go/types"
 	"strings"
 
 	"golang.org/x/tools/go/ssa"
@@ -345,6 +346,104 @@ func ruleK5(c *Ctx, id string) {
 		}
 	}
 	R.Check(okLoop, id, "fstxn.readBitmap|reads every block of the region through the log", P.Pos(rb.Pos()), "readBitmap loads in a loop over the region", "log.Load in a cycle", "the bitmap is not read in full / not through the log")
+	// ... and each turn of the loop reads the next block: block number start + i with i = 0, 1, ... < len (or a block
+	// number stepped from start to start + len)
+	{
+		okAddr, why := false, "no log.Load of addr.MkAddr(<block>, 0) in the loop"
+		var startP, lenP *ssa.Parameter
+		for _, pm := range rb.Params {
+			if bt, isB := pm.Type().Underlying().(*types.Basic); isB && bt.Info()&types.IsInteger != 0 {
+				if startP == nil {
+					startP = pm
+				} else if lenP == nil {
+					lenP = pm
+				}
+			}
+		}
+		lv := findLoopVar(rb, 1)
+		for _, sc := range scopesOf(rb) {
+			for _, b := range sc.Fn.Blocks {
+				for _, in := range b.Instrs {
+					cl, ok := in.(*ssa.Call)
+					if !ok || cl.Call.StaticCallee() == nil || cl.Call.StaticCallee().Name() != "Load" {
+						continue
+					}
+					ac, isA := sc.S.resolve(stripConv(argN(cl, 0))).(*ssa.Call)
+					if !isA || ac.Call.StaticCallee() == nil || ac.Call.StaticCallee().Name() != "MkAddr" || len(ac.Call.Args) < 2 {
+						continue
+					}
+					if off, isk := constInt(stripConv(ac.Call.Args[1])); !isk || off != 0 {
+						why = "the block is not read from its first bit"
+						continue
+					}
+					if lv == nil || startP == nil || lenP == nil {
+						why = "no counter stepped by one / start and length parameters not found"
+						continue
+					}
+					blk := sc.S.resolve(stripConv(ac.Call.Args[0]))
+					adv, nb := lv.alwaysAdvances()
+					// form 1: start + i, i from 0, i < len
+					form1 := false
+					if add, isB := blk.(*ssa.BinOp); isB && add.Op == token.ADD {
+						x, y := sc.S.resolve(stripConv(add.X)), sc.S.resolve(stripConv(add.Y))
+						if (x == ssa.Value(startP) && lv.is(y)) || (y == ssa.Value(startP) && lv.is(x)) {
+							form1 = true
+						}
+					}
+					// form 2: the block number itself is the counter, from start
+					form2 := lv.is(blk)
+					if !form1 && !form2 {
+						why = "the block read does not advance with the loop (it is not start + counter)"
+						continue
+					}
+					// initial value and bound of the counter
+					initOK, boundOK := false, false
+					if lv.phi != nil {
+						for i, e := range lv.phi.Edges {
+							if lv.phi.Block().Dominates(lv.phi.Block().Preds[i]) {
+								continue
+							}
+							if form1 {
+								k, isk := constInt(stripConv(e))
+								initOK = isk && k == 0
+							} else {
+								initOK = stripConv(e) == ssa.Value(startP)
+							}
+						}
+					}
+					for _, br := range branches(rb) {
+						if br.Cond.X == nil || br.Cond.Y == nil {
+							continue
+						}
+						op, x, y := br.Cond.Op, stripConv(br.Cond.X), stripConv(br.Cond.Y)
+						if lv.is(y) {
+							op, x, y = flipOp(op), y, x
+						}
+						if !lv.is(x) || !(op == token.LSS || op == token.GEQ) {
+							continue
+						}
+						if form1 && y == ssa.Value(lenP) {
+							boundOK = true
+						}
+						if form2 {
+							if add, isB := y.(*ssa.BinOp); isB && add.Op == token.ADD {
+								ax, ay := stripConv(add.X), stripConv(add.Y)
+								if (ax == ssa.Value(startP) && ay == ssa.Value(lenP)) || (ay == ssa.Value(startP) && ax == ssa.Value(lenP)) {
+									boundOK = true
+								}
+							}
+						}
+					}
+					if adv && nb > 0 && initOK && boundOK {
+						okAddr = true
+					} else {
+						why = fmt.Sprintf("counter advances on every turn=%v, starts at the beginning=%v, bounded by the length=%v", adv && nb > 0, initOK, boundOK)
+					}
+				}
+			}
+		}
+		R.Check(okAddr, id, "fstxn.readBitmap|block i of the region is read in turn i", P.Pos(rb.Pos()), "the block loaded in a turn of the loop is start + i for i = 0 .. len-1", "address advances with the counter", why+": the allocator is built from copies of one bitmap block (or from a shifted region) - on a disk with more than one bitmap block it refuses free blocks and hands out blocks that are in use or beyond the end of the disk")
+	}
 }
 
 // accessorForm: fn returns  prev() + conv(field)  or  conv(field).
